@@ -42,8 +42,8 @@ EXT_RAISES = {
     "urllib.parse.urlparse": ("ValueError",), "parse.urlsplit": ("ValueError",), "parse.urlparse": ("ValueError",),
     "urllib.parse.unquote": (), "unquote": (), "urllib.parse.quote": (), "quote": (),
     "ipaddress.ip_network": ("ValueError",), "ip_address": ("ValueError",), "ip_network": ("ValueError",),
-    "json.loads": ("ValueError",), "json.dumps": ("ValueError", "OverflowError"),
-    "loads": ("ValueError",), "dumps": ("ValueError", "OverflowError"),
+    "json.loads": ("ValueError",), "json.dumps": ("ValueError", "OverflowError", "TypeError"),
+    "loads": ("ValueError",), "dumps": ("ValueError", "OverflowError", "TypeError"),
     "open": ("OSError",), "materialize": ("Exception",), "RefDict.from_uri": ("Exception",),
     "URI.from_string": ("Exception",),
     "datetime.fromisoformat": ("ValueError",), "datetime.datetime.fromisoformat": ("ValueError",),
